@@ -4,6 +4,7 @@ import (
 	"strings"
 	"sort"
 	"fmt"
+	"go/token"
 	"go/types"
 
 	"golang.org/x/tools/go/ssa"
@@ -132,19 +133,48 @@ func runC06(c *an.Ctx) {
 				dFrom = argPath(kc, 1)
 			}
 		}
-		for _, k := range an.CallsTo(transferedFrom, checkWitness) {
-			wit = append(wit, argPath(k, 0))
+		// witness checks in TransferedFrom and the private helpers it calls, named relative to TransferedFrom
+		senderCalls := map[ssa.Instruction]bool{}
+		otherWitness := ""
+		for _, k := range an.CallsToReach(transferedFrom, checkWitness) {
+			w := an.AccessPathIn(transferedFrom, argsNoRecv(k.Common())[0])
+			wit = append(wit, w)
+			switch w {
+			case aSender:
+				senderCalls[k] = true
+			case "utils.OntContractAddress":
+			default:
+				otherWitness = w
+			}
 		}
 		c.Check(aFrom != "" && aFrom == dFrom, "same-subject|ont.TransferedFrom|allowance-owner==debited", "the allowance consumed is the one granted by the debited account",
 			c.P.Rel(transferedFrom.Pos()), fmt.Sprintf("allowance key from=%s, debit key from=%s", aFrom, dFrom))
-		senderWitnessed := 0
-		for _, w := range wit {
-			if w == aSender {
-				senderWitnessed++
+		// with the spender's own witness failing, and the debited account not being the ONT contract (its ONG hand-out
+		// is the one designed exception), the debit is unreachable: no other witness can stand in for the spender
+		okSpender := aSender != "" && len(senderCalls) >= 1 && otherWitness == ""
+		why := fmt.Sprintf("allowance spender=%s, witnesses checked=%v", aSender, wit)
+		if okSpender {
+			g := &an.Guard{Name: "CheckWitness(spender)", FailModes: [][]an.Abs{{an.AFalse}}, MatchCall: func(k ssa.CallInstruction) bool { return senderCalls[k] }}
+			extra := map[ssa.Value]an.Abs{}
+			for _, fn := range an.InlineReach(transferedFrom) {
+				for _, v := range an.FindValues(fn, func(v ssa.Value) bool {
+					b, ok := v.(*ssa.BinOp)
+					if !ok || b.Op != token.EQL {
+						return false
+					}
+					x, y := an.AccessPathIn(transferedFrom, b.X), an.AccessPathIn(transferedFrom, b.Y)
+					return (x == aFrom && y == "utils.OntContractAddress") || (y == aFrom && x == "utils.OntContractAddress")
+				}) {
+					extra[v] = an.AFalse
+				}
+			}
+			v := an.GuardedX(c.P, transferedFrom, []*an.Guard{g}, extra, isDebit, false)
+			if !v.Holds {
+				okSpender, why = false, "debit reachable although the spender's witness failed and the debited account is not the ONT contract: "+v.Witness
 			}
 		}
-		c.Check(aSender != "" && senderWitnessed >= 2, "same-subject|ont.TransferedFrom|spender==witnessed", "the spender named in the allowance key is the address whose witness is checked (both time branches)",
-			c.P.Rel(transferedFrom.Pos()), fmt.Sprintf("allowance spender=%s, witnesses checked=%v", aSender, wit))
+		c.Check(okSpender, "same-subject|ont.TransferedFrom|spender==witnessed", "the spender named in the allowance key is the address whose witness is checked: with that check failing the debit is unreachable (except the ONT contract handing out its own ONG)",
+			c.P.Rel(transferedFrom.Pos()), why)
 	}
 	// (3) checked subtraction guards the stores
 	subGuard := an.GuardForFuncs("NativeTokenBalance.Sub", sub)
